@@ -79,7 +79,10 @@ class ShapeParser(CastParser):
         logging.debug("line_width = %s", line_width)                 
         
         dir_val = int(header_data[idx])
-        direction =  DIRECTIONS[dir_val]
+        if dir_val in DIRECTIONS:
+            direction =  DIRECTIONS[dir_val]
+        else:
+            direction = str(dir_val)
         idx += 1                
         logging.debug("direction = %s", direction)   
         
